@@ -22,6 +22,9 @@ ESExchange(e) == e.lag = 0 => /\ Close(e.obs.es_sw[1], e.obs.es[2], Tol)
                               /\ Close(e.obs.es_sw[2], e.obs.es[1], Tol)
 ESShift(e) == CloseSeq(e.obs.es_shift, e.obs.es, Tol)
 ESBigShift(e) == e.obs.es_bigshift_exc = "" /\ CloseSeq(e.obs.es_bigshift, e.obs.es, Tol)
+\* a change of the time unit by a power of two (times, window and lag alike) changes nothing
+ESUnit(e) == /\ e.obs.es_tiny_exc = e.obs.es_exc /\ e.obs.es_huge_exc = e.obs.es_exc
+             /\ (e.obs.es_exc = "" => CloseSeq(e.obs.es_tiny, e.obs.es, Tol) /\ CloseSeq(e.obs.es_huge, e.obs.es, Tol))
 ESScale(e) == e.tm = INF => CloseSeq(e.obs.es_scale, e.obs.es, Tol)
 HasECA(e) == e.tm # INF
 ECAAppl(e) == HasECA(e) => (e.obs.eca_exc = "" /\ e.obs.eca_sw_exc = "" /\ e.obs.eca_shift_exc = "")
@@ -60,6 +63,7 @@ PairVerdict(e) ==
   ELSE IF ~ESShift(e) THEN R("ShiftInv", "event_synchronization")
   ELSE IF ~ESBigShift(e) THEN R("ShiftInv", "event_synchronization(2^25)")
   ELSE IF ~ESScale(e) THEN R("ScaleInv", "event_synchronization")
+  ELSE IF ~ESUnit(e) THEN R("ScaleInv", "event_synchronization(time unit 2^-40 / 2^30)")
   ELSE IF ~ECADef(e) THEN R("ECADef", "event_coincidence_analysis")
   ELSE IF ~ECARange(e) THEN R("Range01", "event_coincidence_analysis")
   ELSE IF ~ECAExchange(e) THEN R("Exchange", "event_coincidence_analysis")
